@@ -202,43 +202,43 @@ package packet
 //@   props C20,C03
 //@   requires rinv(p)
 //@   modifies p.buffer.unread, p.opError
-//@   option alloc = 2 * max(n, 0)
+//@   option alloc = 2 * min(max(n, 0), len(rem(p)))
 //@   ensures rinv(p)
 //@   ensures [C20 sticky] old(rfailed(p)) ==> rfailed(p) && result == eps && rem(p) == old(rem(p)) && (reof(p) <==> old(reof(p)))
 //@   ensures [C20 nonpos] !old(rfailed(p)) && n <= 0 ==> !rfailed(p) && result == eps && rem(p) == old(rem(p))
 //@   ensures [C20 ok] !old(rfailed(p)) && n > 0 && len(old(rem(p))) >= n ==> !rfailed(p) && rem(p) == drop(old(rem(p)), n) && result == trim(take(old(rem(p)), n))
-//@   ensures [C20 short] !old(rfailed(p)) && n > 0 && len(old(rem(p))) < n ==> rfailed(p) && result == eps && rem(p) == eps && (reof(p) <==> len(old(rem(p))) == 0)
+//@   ensures [C20 short] !old(rfailed(p)) && n > 0 && len(old(rem(p))) < n ==> rfailed(p) && result == eps && rem(p) == old(rem(p)) && !reof(p)
 //@   ensures [C20 obs.fail] !old(rfailed(p)) && n > 0 ==> (rfailed(p) <==> !okN(old(rem(p)), n))
 //@   ensures [C20 obs.ok] !old(rfailed(p)) && n > 0 && okN(old(rem(p)), n) ==> rem(p) == tlN(old(rem(p)), n) && result == hdC(old(rem(p)), n)
-//@   ensures [C20 obs.short] !old(rfailed(p)) && n > 0 && !okN(old(rem(p)), n) ==> rem(p) == eps && result == eps
+//@   ensures [C20 obs.short] !old(rfailed(p)) && n > 0 && !okN(old(rem(p)), n) ==> rem(p) == old(rem(p)) && result == eps
 
 //@ func (p *Reader) ReadCStringNWithoutTrim
 //@   props C20,C03
 //@   requires rinv(p)
 //@   modifies p.buffer.unread, p.opError
-//@   option alloc = 2 * max(n, 0)
+//@   option alloc = 2 * min(max(n, 0), len(rem(p)))
 //@   ensures rinv(p)
 //@   ensures [C20 sticky] old(rfailed(p)) ==> rfailed(p) && result == eps && rem(p) == old(rem(p)) && (reof(p) <==> old(reof(p)))
 //@   ensures [C20 nonpos] !old(rfailed(p)) && n <= 0 ==> !rfailed(p) && result == eps && rem(p) == old(rem(p))
 //@   ensures [C20 ok] !old(rfailed(p)) && n > 0 && len(old(rem(p))) >= n ==> !rfailed(p) && rem(p) == drop(old(rem(p)), n) && result == take(old(rem(p)), n)
-//@   ensures [C20 short] !old(rfailed(p)) && n > 0 && len(old(rem(p))) < n ==> rfailed(p) && result == eps && rem(p) == eps && (reof(p) <==> len(old(rem(p))) == 0)
+//@   ensures [C20 short] !old(rfailed(p)) && n > 0 && len(old(rem(p))) < n ==> rfailed(p) && result == eps && rem(p) == old(rem(p)) && !reof(p)
 //@   ensures [C20 obs.fail] !old(rfailed(p)) && n > 0 ==> (rfailed(p) <==> !okN(old(rem(p)), n))
 //@   ensures [C20 obs.ok] !old(rfailed(p)) && n > 0 && okN(old(rem(p)), n) ==> rem(p) == tlN(old(rem(p)), n) && result == hdB(old(rem(p)), n)
-//@   ensures [C20 obs.short] !old(rfailed(p)) && n > 0 && !okN(old(rem(p)), n) ==> rem(p) == eps && result == eps
+//@   ensures [C20 obs.short] !old(rfailed(p)) && n > 0 && !okN(old(rem(p)), n) ==> rem(p) == old(rem(p)) && result == eps
 
 //@ func (p *Reader) ReadNBytes
 //@   props C20,C03
 //@   requires rinv(p)
 //@   modifies p.buffer.unread, p.opError
-//@   option alloc = max(n, 0)
+//@   option alloc = min(max(n, 0), len(rem(p)))
 //@   ensures rinv(p)
 //@   ensures [C20 sticky] old(rfailed(p)) ==> rfailed(p) && len(result) == 0 && rem(p) == old(rem(p)) && (reof(p) <==> old(reof(p)))
 //@   ensures [C20 nonpos] !old(rfailed(p)) && n <= 0 ==> !rfailed(p) && len(result) == 0 && rem(p) == old(rem(p))
 //@   ensures [C20 ok] !old(rfailed(p)) && n > 0 && len(old(rem(p))) >= n ==> !rfailed(p) && rem(p) == drop(old(rem(p)), n) && result == take(old(rem(p)), n)
-//@   ensures [C20 short] !old(rfailed(p)) && n > 0 && len(old(rem(p))) < n ==> rfailed(p) && len(result) == 0 && rem(p) == eps && (reof(p) <==> len(old(rem(p))) == 0)
+//@   ensures [C20 short] !old(rfailed(p)) && n > 0 && len(old(rem(p))) < n ==> rfailed(p) && len(result) == 0 && rem(p) == old(rem(p)) && !reof(p)
 //@   ensures [C20 obs.fail] !old(rfailed(p)) && n > 0 ==> (rfailed(p) <==> !okN(old(rem(p)), n))
 //@   ensures [C20 obs.ok] !old(rfailed(p)) && n > 0 && okN(old(rem(p)), n) ==> rem(p) == tlN(old(rem(p)), n) && result == hdB(old(rem(p)), n)
-//@   ensures [C20 obs.short] !old(rfailed(p)) && n > 0 && !okN(old(rem(p)), n) ==> rem(p) == eps && len(result) == 0
+//@   ensures [C20 obs.short] !old(rfailed(p)) && n > 0 && !okN(old(rem(p)), n) ==> rem(p) == old(rem(p)) && len(result) == 0
 //@   ensures [C12 fresh] fresh(result)
 
 //@ func (p *Reader) ReadCString
